@@ -12,6 +12,7 @@ if TYPE_CHECKING:
 
     from biodivine_aeon import Regulation, VariableId
 
+from copy import copy
 from typing import cast
 
 from biodivine_aeon import BooleanNetwork, RegulatoryGraph, SignType, SymbolicContext
@@ -152,6 +153,23 @@ def cleanup_network(network: BooleanNetwork) -> BooleanNetwork:
         raise AssertionError(
             f"Parametrized networks are not supported. Found implicit parameters: {names}."
         )
+
+    # Free inputs are source nodes: their value never changes. AEON, however,
+    # interprets a variable without an update function as an unknown *constant*
+    # (an implicit parameter), which means that in the symbolic asynchronous
+    # graph the variable can be updated towards the value of that constant.
+    # Giving each free input an explicit identity update function makes the
+    # symbolic dynamics agree with the Petri net encoding (where inputs have
+    # no transitions) and with `source_nodes`.
+    inputs = [v for v in network.implicit_parameters()]
+    if len(inputs) > 0:
+        network = copy(network)
+        for var in inputs:
+            name = network.get_variable_name(var)
+            network.ensure_regulation(
+                {"source": name, "target": name, "essential": True, "sign": "+"}
+            )
+            network.set_update_function(var, name)
 
     return network.infer_valid_graph()
 
